@@ -1905,14 +1905,16 @@ class GroupBy:
                 n_selected = len(ilocs)
                 out_index = pd.RangeIndex(n_selected)
             else:
-                new_codes = [np.repeat(c, n)[keep] for c in self.result_index.codes]
+                group_index = _ensure_multi_index(self.result_index)
+                keep = keep.ravel()
+                new_codes = [np.repeat(c, n)[keep] for c in group_index.codes]
                 new_codes.append(np.tile(np.arange(n), self.ngroups)[keep])
-                new_levels = [*self.result_index.levels, np.arange(n)]
+                new_levels = [*group_index.levels, np.arange(n)]
                 out_index = pd.MultiIndex(
                     codes=new_codes,
                     levels=new_levels,
-                    names=[*self.result_index.names, None],
-                )[keep]
+                    names=[*group_index.names, None],
+                )
 
         col_names = self._col_names_from_value_names(value_names)
 
